@@ -11,7 +11,7 @@ if not os.path.exists(WT):
     subprocess.run(f'git -C /repo worktree add -q --detach {WT} HEAD', shell=True, check=True)
 conf = json.load(open('/tmp/sv/results.json'))
 res = json.load(open(RES)) if os.path.exists(RES) else {}
-ids = [a for a in sys.argv[1:] if not os.path.isdir(a)] or sorted(k for k, v in conf.items() if v.get('confirmed'))
+ids = [a for a in sys.argv[1:] if not os.path.isdir(a) and not a.startswith('--')] or sorted(k for k, v in conf.items() if v.get('confirmed'))
 ALL = '--all' in sys.argv
 for sid in ids:
     if sid.startswith('--') or (sid in res and not os.environ.get('FORCE')):
